@@ -59,7 +59,7 @@ func (s imgShape) String() string {
 func c10Shapes(tier string) []imgShape {
 	rect := func(x, y, w, h int) image.Rectangle { return image.Rect(x, y, x+w, y+h) }
 	var out []imgShape
-	sizes := [][2]int{{3, 2}, {1, 4}, {4, 1}, {0, 0}, {5, 4}, {2, 7}}
+	sizes := [][2]int{{3, 2}, {1, 4}, {4, 1}, {0, 0}, {5, 4}, {2, 7}, {2, 131}}
 	if tier == "thorough" {
 		sizes = append(sizes, [2]int{17, 9}, [2]int{8, 33}, [2]int{1, 1}, [2]int{0, 3}, [2]int{16, 16})
 	}
@@ -107,7 +107,7 @@ func C10(tier string) {
 	crashGuard("C10", tier, "exploration")
 	r := ev.Begin("C10", tier, "exploration")
 	shapes := c10Shapes(tier)
-	r.Rule(fmt.Sprintf("complete product: %d source types x %d destination types x %d bounds shapes (origins negative/zero/positive for source and destination independently, empty, 1xN, Nx1, destination larger than source, source and destination as sub-images of larger parents) x parallelism {1,2,3,7,16,rows+5} x %d transforms, plus in-place runs where types match; every byte of the destination parent's backing array is compared; distinct = configurations with a non-empty source", len(c10SrcKinds), len(c10DstKinds), len(shapes), len(imgTransforms)))
+	r.Rule(fmt.Sprintf("complete product: %d source types x %d destination types x %d bounds shapes (origins negative/zero/positive for source and destination independently, empty, 1xN, Nx1, destination larger than source, source and destination as sub-images of larger parents) x parallelism {1,2,3,4,5,7,11,13,16,64,rows+5} x %d transforms, plus in-place runs where types match; every byte of the destination parent's backing array is compared; distinct = configurations with a non-empty source", len(c10SrcKinds), len(c10DstKinds), len(shapes), len(imgTransforms)))
 	r.Assume("expected image = destination's own Set(dst.Min + p - src.Min, f(src.At(p))) over a byte-identical copy, i.e. the destination colour model's conversion as implemented by the standard library")
 
 	type job struct {
@@ -137,7 +137,7 @@ func C10(tier string) {
 				skipped.Add(1)
 				continue
 			}
-			for _, par := range []int{1, 2, 3, 7, 16, rows + 5} {
+			for _, par := range []int{1, 2, 3, 4, 5, 7, 11, 13, 16, 64, rows + 5} {
 				c10One(r, tr, sk, dk, sh, par, false)
 				evals++
 				if !sh.src.Empty() {
